@@ -1703,6 +1703,10 @@ func c05EncodeTarget(r *rand.Rand, p string, force map[int]bool, rate int) strin
 		if !plain && strings.IndexByte("!'()*", c) >= 0 && r.Intn(2) == 0 {
 			plain = true // accepted as they are, but not what the canonical spelling has
 		}
+		if i == 0 && c == '/' { // a request target starts with a bare '/'
+			sb.WriteByte(c)
+			continue
+		}
 		if plain && !force[i] && (rate == 0 || r.Intn(rate) != 0) {
 			sb.WriteByte(c)
 			continue
